@@ -241,16 +241,19 @@ def cargo_build(ctx, bins=("corr",)):
     return True
 
 
-def run_bin(path, args, lines, timeout=1800):
+def run_bin(path, args, lines, timeout=1800, env=None):
+    e = dict(ENV)
+    if env:
+        e.update(env)
     p = subprocess.run([path] + list(args), input="\n".join(lines) + "\n", stdout=subprocess.PIPE,
-                       stderr=subprocess.PIPE, text=True, errors="replace", timeout=timeout, env=ENV)
+                       stderr=subprocess.PIPE, text=True, errors="replace", timeout=timeout, env=e)
     return p.returncode, p.stdout.splitlines(), p.stderr
 
 
 BINS = {"corr": CORR, "e2e": E2E}
 
 
-def run_pair(ctx, comp, cases, binname=None):
+def run_pair(ctx, comp, cases, binname=None, env=None):
     """cases: list of lists of op lines (each case self-contained). Returns per-case (impl, model) outputs."""
     flat = []
     bounds = []
@@ -258,7 +261,7 @@ def run_pair(ctx, comp, cases, binname=None):
         bounds.append((len(flat), len(flat) + len(c)))
         flat.extend(c)
     binname = binname or ("e2e" if comp == "stack" else "corr")
-    rc1, impl, e1 = run_bin(BINS[binname], [comp], flat)
+    rc1, impl, e1 = run_bin(BINS[binname], [comp], flat, env=env)
     rc2, model, e2 = run_bin(MODEL, [comp], [l.lstrip("!") for l in flat])  # '!' = run exclusively (harness only)
     if rc1 != 0 or len(impl) != len(flat):
         # the harness process died (abort, stack overflow): bisect to the offending case
@@ -270,12 +273,12 @@ def run_pair(ctx, comp, cases, binname=None):
     return [(impl[a:b], model[a:b]) for a, b in bounds]
 
 
-def corr_component(ctx, comp, cases, nontrivial=None, sample_n=3, label=None, oracle=None, shrink=True):
+def corr_component(ctx, comp, cases, nontrivial=None, sample_n=3, label=None, oracle=None, shrink=True, env=None):
     """Lock-step run of `cases` on implementation and model.  Returns list of dicts for cases where
     something is wrong: kind = 'oracle' (implementation fails the property's own oracle) or
     'disagree' (model and implementation differ)."""
     label = label or comp
-    res = run_pair(ctx, comp, cases)
+    res = run_pair(ctx, comp, cases, env=env)
     bad = []
     n_eval = 0
     stat = ctx.cov["correspondence"].setdefault(label, {"cases": 0, "ops": 0, "disagreements": 0, "oracle_failures": 0})
